@@ -151,10 +151,10 @@ Fixpoint cut_bad (bad : list (str * nat)) (ts : list tk) : list tk * option perr
 
 Definition finish_terms (fixed intercept : bool) (f : flags) (avail_vars : option (list str)) (pv : list (str * list str)) (ts0 : list tk) : res val :=
   let ts := get_tokens intercept ts0 in
-  let used := if intercept then
-                let ts1 := insert_after cTILDE (replace_zero (map sanitize ts0)) in
-                match find_rhs ts1 [] 0 with Some i => Some (lhs_vars pv (firstn (S i) ts1)) | None => Some [] end
-              else None in
+  (* the variables used on the lhs are recorded for both settings of include_intercept (on the token list before / after the
+     intercept insertion, which does not touch the lhs) *)
+  let used := let ts1 := if intercept then insert_after cTILDE (replace_zero (map sanitize ts0)) else replace_zero (map sanitize ts0) in
+              match find_rhs ts1 [] 0 with Some i => Some (lhs_vars pv (firstn (S i) ts1)) | None => Some [] end in
   match to_ast fixed f ts with
   | inr e => inr e
   | inl None => inl (VSide (SSet []))
@@ -180,10 +180,5 @@ Definition get_terms (fixed intercept : bool) (f : flags) (avail_vars : option (
   let terminal := match pyerr with Some e => Some e | None => match lexerr with Some _ => Some ESyntax | None => None end end in
   match terminal with
   | None => finish_terms fixed intercept f avail_vars pv ts0
-  | Some e =>
-      if intercept then inr e      (* list(...) forces the whole stream first *)
-      else match mrun fixed f (merge_partial (replace_zero (map sanitize ts0)) None) ([], []) with
-           | inr e' => inr e'      (* the machine failed on an earlier token *)
-           | inl _ => inr e
-           end
+  | Some e => inr e      (* list(...) forces the whole token stream first, for both settings of include_intercept *)
   end.
